@@ -1,12 +1,13 @@
 #!/bin/bash
-# tools/runall.sh [tier] : run every registered check once on the unchanged tree, print exit code and wall time
-TIER=${1:-quick}
+# tools/runall.sh [tier] [ids...] : run registered checks once on the unchanged tree, print exit code and wall time
+TIER=${1:-quick}; shift
+IDS=${@:-C01 C02 C03 C04 C05 C06 C07 C08 C09 C10 C11 C12 C13 C14 C15 C16 C17 C18 C19 C20}
 cd /verif
-for id in C01 C02 C03 C04 C05 C06 C07 C08 C09 C10 C11 C12 C13 C14 C15 C16 C17 C18 C19 C20; do
+for id in $IDS; do
   s=$(date +%s)
-  out=$(./check $id --tier $TIER 2>&1 | grep -v "^WARNING conda" | tail -3)
+  ./check $id --tier $TIER > /tmp/runall_$id.out 2>&1
   rc=$?
   e=$(date +%s)
-  echo "$id rc=${PIPESTATUS[0]} $((e-s))s | $(echo "$out" | head -1 | cut -c1-200)"
-  echo "$out" | grep -E "VIOLATION|INCONCLUSIVE|ERROR" | head -3
+  echo "$id rc=$rc $((e-s))s | $(grep "tier=$TIER" /tmp/runall_$id.out | head -1 | cut -c1-200)"
+  grep -E "VIOLATION|INCONCLUSIVE|ERROR|KNOWN-FINDING" /tmp/runall_$id.out | head -3 | cut -c1-300
 done
